@@ -105,6 +105,13 @@ def value_for(rng, ty):
         # every byte string is a u-coordinate: unreduced ones (p .. 2^255-1), bit 255 set, small order, near the basepoint
         c, u = rng.choice(_MONT_US)
         return u, 'valid'
+    if ty in ('signingkey', 'xstatic', 'signature', 'cedwards', 'cristretto', 'montgomery', 'xpublic') and rng.random() < 0.2:
+        # byte-array types accept every value: the conspicuous ones (all zero, all ones, one bit) must round-trip too
+        n_ = size(ty)
+        pat = rng.choice(['zero', 'ones', 'bit', 'byte'])
+        b = {'zero': bytes(n_), 'ones': b'\xff' * n_, 'bit': (1 << rng.randrange(8 * n_)).to_bytes(n_, 'little'),
+             'byte': bytes([rng.choice([0x01, 0x7f, 0x80])]) * n_}[pat]
+        return b, ('xstatic:unclamped' if ty == 'xstatic' else 'valid')
     if ty == 'signature':
         return vals.rb(rng, 64), 'valid'
     if ty == 'xstatic':
@@ -118,8 +125,11 @@ def value_for(rng, ty):
 def gen(ctx, n):
     rng = ctx.rng
     for ty in TYPES:
-        for _ in range(n):
-            b, c = value_for(rng, ty)
+        fixed = [(bytes(size(ty)), 'valid'), (b'\xff' * size(ty), 'valid')] if ty in ('signingkey', 'xstatic', 'signature', 'cedwards', 'cristretto', 'montgomery', 'xpublic') else []
+        for it in range(n + len(fixed)):
+            b, c = fixed[it] if it < len(fixed) else value_for(rng, ty)
+            if ty == 'xstatic':
+                c = 'xstatic:unclamped'
             canon = native_accepts(ty, b)
             strict = ty in ('scalar', 'edwards', 'ristretto', 'verifyingkey')
             binp, jsp = bincode_of(ty, b), json_of(b)
